@@ -39,17 +39,17 @@ func removeTwoNodeCycles(g *graph.DGraph) {
 	type pair [2]*graph.Node
 
 	seen := map[pair]bool{}
-	rev := graph.EdgeSet{}
+	rev := []*graph.Edge{} // a slice, not a set: reversal order determines the order of the nodes' edge lists
 
 	for _, e := range g.Edges {
 		a, b := e.From, e.To
 		if seen[pair{b, a}] {
-			rev[e] = true
+			rev = append(rev, e)
 		} else {
 			seen[pair{a, b}] = true
 		}
 	}
-	for e := range rev {
+	for _, e := range rev {
 		e.Reverse()
 	}
 }
